@@ -16,6 +16,7 @@ import Driver.C16
 import Driver.C17
 import Driver.C20
 import Driver.C08
+import Driver.C15
 open Lean
 
 def dispatch (prop : String) (j : Json) : Except String Json :=
@@ -38,6 +39,7 @@ def dispatch (prop : String) (j : Json) : Except String Json :=
   | "C17" => Driver.C17.handle j
   | "C20" => Driver.C20.handle j
   | "C08" => Driver.C08.handle j
+  | "C15" => Driver.C15.handle j
   | _ => .error s!"unknown property {prop}"
 
 partial def loop (h : IO.FS.Stream) (out : IO.FS.Stream) : IO Unit := do
